@@ -313,6 +313,21 @@ func isRemoval(blk string) bool {
 	return false
 }
 
+// isParkedAtSlotCheck: an arriving goroutine (not one we hold in our handler) is parked on a lock inside
+// the slot check. Judged by the goroutine's wait state in the header line, not by frames alone (a
+// goroutine that merely passes through an uncontended Lock shows the same frames while running).
+func isParkedAtSlotCheck(blk string) bool {
+	nl := strings.IndexByte(blk, '\n')
+	if nl < 0 {
+		return false
+	}
+	head := blk[:nl]
+	if !(strings.Contains(head, "[sync.Mutex.Lock") || strings.Contains(head, "[sync.RWMutex.Lock") || strings.Contains(head, "[semacquire")) {
+		return false
+	}
+	return strings.Contains(blk, "queueProcessor).enqueueIfSlotAvailable") && !strings.Contains(blk, "c06.installHooks")
+}
+
 func isLoop(blk string) bool { return strings.Contains(blk, "queueProcessor).process(") }
 
 func pollUntil(timeout time.Duration, cond func() bool) bool {
@@ -367,7 +382,6 @@ type executor struct {
 	opts    execOpts
 	clk     *vclock.Clock
 	w       *world
-	stream  interface{}
 	run     func(engine.Txn) engine.Result
 	cancel  context.CancelFunc
 	mirrors []*mirror
@@ -382,10 +396,14 @@ type executor struct {
 	logPos, regN, verN      int
 	overshootReported       bool
 	cancelled               bool
+	byID                    map[string]*rq
+	regPos                  int       // registrations of the event log already replayed into the mirrors
+	prevTick                time.Time // instant and controller sequence number of the previous tick
+	prevTickSeq             int
 	classes                 map[string]bool
 }
 
-var caseCounter atomic.Int64
+var caseCounter, childSurvivals atomic.Int64
 var scratch string
 
 func (x *executor) tracef(format string, a ...any) {
@@ -512,6 +530,30 @@ func (x *executor) newVerdictsLocked() map[string]bool {
 	return nv
 }
 
+// syncRegistrations replays new queue.registered events, in the order the gateway emitted them, into
+// the mirrors (heap stamps follow the real enqueue order) and numbers them for the arrival order.
+func (x *executor) syncRegistrations() {
+	newIDs := []string{}
+	x.w.locked(func() {
+		for ; x.regPos < len(x.w.log); x.regPos++ {
+			if e := x.w.log[x.regPos]; e.Kind == "queue.registered" {
+				newIDs = append(newIDs, e.ID)
+			}
+		}
+	})
+	for _, id := range newIDs {
+		r := x.byID[id]
+		if r == nil || r.regSeq != 0 {
+			continue
+		}
+		x.seq++
+		r.regSeq = x.seq
+		for _, m := range x.mirrors {
+			m.register(id, r.P)
+		}
+	}
+}
+
 func (x *executor) arrive(st step) error {
 	x.seq++
 	// id: the name used in messages (deterministic per schedule); txid: unique in the process, so that a
@@ -521,6 +563,7 @@ func (x *executor) arrive(st step) error {
 	r := &rq{ID: id, PrioName: st.Prio, P: prioNum(st.Prio), hold: st.Hold, holdRemove: st.HoldRemove, startSeq: x.seq, checkSeq: x.seq, arrivedAt: x.clk.Now()}
 	x.w.locked(func() { x.w.reqs[txid] = r })
 	x.order = append(x.order, r)
+	x.byID[id] = r
 	x.or.candidate(r.arrivedAt)
 	predFree := map[string]bool{}
 	for _, m := range x.mirrors {
@@ -539,21 +582,49 @@ func (x *executor) arrive(st step) error {
 		x.w.cond.Broadcast()
 		x.w.mu.Unlock()
 	}()
-	if !x.w.wait(guard, func() bool { return r.registered || r.returned || (r.hold && r.atSlot) }) {
+	progressed := func() bool { return r.registered || r.returned || (r.hold && r.atSlot) }
+	if others := x.heldSlotsExcept(r); len(others) > 0 {
+		// an implementation that makes check+registration one critical section parks this arrival behind the
+		// goroutine we hold inside it: give it a moment, then let the held ones go (we only lose the interleaving)
+		var ok bool
+		parkedSeen := 0
+		pollUntil(guard, func() bool {
+			x.w.locked(func() { ok = progressed() })
+			if ok {
+				return true
+			}
+			if countGoroutines(isParkedAtSlotCheck) > 0 {
+				parkedSeen++ // confirmed on three consecutive looks
+			} else {
+				parkedSeen = 0
+			}
+			return parkedSeen >= 3
+		})
+		if !ok {
+			x.class("arrive:serialised-behind-a-held-slot-check")
+			for _, h := range others {
+				if e := x.releaseSlot(h); e != nil {
+					return e
+				}
+			}
+			for _, m := range x.mirrors {
+				predFree[m.name] = m.slotFree()
+			}
+		}
+	}
+	if !x.w.wait(guard, progressed) {
 		return inconclusive("arrival %s neither registered nor returned nor reached the slot check", id)
 	}
 	var registered, returned, atSlot bool
 	x.w.locked(func() { registered, returned, atSlot = r.registered, r.returned, r.atSlot })
 	switch {
 	case registered:
-		x.seq++
-		r.regSeq = x.seq
 		for _, m := range x.mirrors {
 			if !predFree[m.name] {
 				m.slotOK = false
 			}
-			m.register(id, r.P)
 		}
+		x.syncRegistrations()
 		x.class("arrive:registered")
 		x.tracef("arrive %s prio=%q -> waits", id, st.Prio)
 		for _, w := range x.waiting() {
@@ -625,11 +696,7 @@ func (x *executor) releaseSlot(r *rq) error {
 	var registered bool
 	x.w.locked(func() { registered = r.registered })
 	if registered {
-		x.seq++
-		r.regSeq = x.seq
-		for _, m := range x.mirrors {
-			m.register(r.ID, r.P)
-		}
+		x.syncRegistrations()
 		x.tracef("release %s -> registered", r.ID)
 	} else {
 		r.handled = true
@@ -761,6 +828,7 @@ func (x *executor) observeTick(now time.Time, before []*rq, draining bool) error
 			okm = false
 		}
 		if !okm {
+			x.tracef("mirror %s leaves: predicted %v; heap%s", m.name, want, m.headOrder())
 			m.alive = false
 			m.why = fmt.Sprintf("step %d: predicted admissions %v, observed %v (rejected %v)", x.stepNo, want, ids(admitted), ids(rejected))
 		}
@@ -787,17 +855,28 @@ func (x *executor) observeTick(now time.Time, before []*rq, draining bool) error
 			x.class("tick:window-reopens-with-several-waiters")
 		}
 	}
+	// a verdict that was signalled by an earlier pass but observed only now (possible only when the
+	// implementation left the mirrors): judge it at the earlier instant and against the waiters of then
+	inBefore := map[string]bool{}
+	for _, r := range before {
+		inBefore[r.ID] = true
+	}
+	stray := func(a *rq) bool { return !inBefore[a.ID] && !x.prevTick.IsZero() }
 	for _, a := range admitted {
-		if !x.or.admit(now) {
-			return violation("%s was allowed at +%v although no fixed-window reading of the quota (max %d per %ds) admits it: admissions so far exceed every possible window", a.ID, now.Sub(time.Unix(baseUnix, 0)), x.sc.Config.Max, x.sc.Config.WindowS)
+		at := now
+		if stray(a) && x.prevTick.UnixNano() >= x.or.lastAdm {
+			at = x.prevTick
+		}
+		if !x.or.admit(at) {
+			return violation("%s was allowed at +%v although no fixed-window reading of the quota (max %d per %ds) admits it: admissions so far exceed every possible window", a.ID, at.Sub(time.Unix(baseUnix, 0)), x.sc.Config.Max, x.sc.Config.WindowS)
 		}
 	}
 	for _, a := range admitted {
 		for _, w := range after {
-			if !better(w, a) {
+			if !better(w, a) || (stray(a) && w.regSeq >= x.prevTickSeq) {
 				continue
 			}
-			msg := fmt.Sprintf("%s (priority %d, arrival #%d) was allowed while %s (priority %d, arrival #%d) was still waiting", a.ID, a.P, a.startSeq, w.ID, w.P, w.regSeq)
+			msg := fmt.Sprintf("%s (priority %d, arrived at controller step #%d) was allowed while %s (priority %d, registered at controller step #%d) was still waiting", a.ID, a.P, a.startSeq, w.ID, w.P, w.regSeq)
 			if x.isEqualPriorityRestamp(a, w) {
 				x.rep.Findings = append(x.rep.Findings, finding{"C06-F1", msg, x.stepNo})
 				x.tracef("FINDING C06-F1: %s", msg)
@@ -859,10 +938,14 @@ func (x *executor) tick() error {
 	for _, m := range x.alive() {
 		m.pred = m.tick(now)
 	}
+	x.seq++
+	tickSeq := x.seq
 	if _, err := x.clk.AdvanceSettle(tickStep, loopOwner); err != nil {
 		return inconclusive("%v", err)
 	}
-	return x.observeTick(now, before, false)
+	err := x.observeTick(now, before, false)
+	x.prevTick, x.prevTickSeq = now, tickSeq
+	return err
 }
 
 // shutdown: cancel the context, optional late arrivals, one more tick (the loop drains and ends),
@@ -1009,7 +1092,7 @@ func (x *executor) abort() {
 }
 
 func runSchedule(sc sched, opts execOpts) (rep report) {
-	x := &executor{sc: sc, opts: opts, rep: &rep, classes: map[string]bool{}, caseID: caseCounter.Add(1)}
+	x := &executor{sc: sc, opts: opts, rep: &rep, classes: map[string]bool{}, byID: map[string]*rq{}, caseID: caseCounter.Add(1)}
 	defer func() {
 		for c := range x.classes {
 			rep.Classes = append(rep.Classes, c)
@@ -1305,13 +1388,25 @@ func runCase(r *ev.Recorder, sc sched) (fail string, trace []string, infra strin
 			r.Class("excluded:C06-F3")
 			return
 		}
+		if childSurvivals.Load() >= 10 {
+			// ten children in a row survived their drain: the defect is evidently absent; go on in-process
+			// (the journal is written: should the worker die after all, the driver reports this schedule)
+			crep := runSchedule(sc, execOpts{raw: true})
+			if f, inf := judge(r, sc, crep); f != "" || inf != "" {
+				return f, crep.Trace, inf, false
+			}
+			r.Class("drain-with-held-clean-up-survived-in-process")
+			return
+		}
 		died, out, crep := isolated(sc)
 		if died {
+			childSurvivals.Store(0)
 			return "the process died during shutdown: " + crashLine(out), rep.Trace, "", false
 		}
 		if f, inf := judge(r, sc, crep); f != "" || inf != "" {
 			return f, crep.Trace, inf, false
 		}
+		childSurvivals.Add(1)
 		r.Class("isolated-child-survived")
 	}
 	return
